@@ -313,6 +313,7 @@ func runC08(c *report.Ctx) {
 	ruleReadySet(c, false, true)
 	ruleRemovalKeepsSurvivorsReservations(c)
 	ruleNoNewRowsForRemovedWallet(c)
+	ruleRemovableVerdictConsidersInputs(c)
 	ruleBalanceLookupPresence(c) // a rollback between two removal steps must not re-create the removed wallet's rows
 	ruleImportAppliesSpends(c) // "the same mnemonic can be imported again": records a removal kept for a co-owner must not make the re-import skip the spends
 	ruleSelectionResetOnDelete(c)
